@@ -7,7 +7,7 @@
     and therefore the trie structure (up to the hash caches) and the root hash computed from
     it depend on the key-value content alone — not on the order of operations. *)
 From Coq Require Import List NArith Arith Bool.
-From Kardia Require Import C07.Model C07.ProofsBase C07.ProofsMap C07.ProofsCanon C07.ProofsEnc C07.ProofsCache C07.ProofsRlp C07.ProofsCodec C07.ProofsCommit C07.ProofsReopen C07.ProofsProof C07.Open.
+From Kardia Require Import C07.Model C07.ProofsBase C07.ProofsMap C07.ProofsCanon C07.ProofsEnc C07.ProofsCache C07.ProofsRlp C07.ProofsCodec C07.ProofsCommit C07.ProofsReopen C07.ProofsProof C07.ProofsBuild C07.ProofsStack C07.Open.
 Import ListNotations.
 
 (** keybytesToHex is injective on byte strings and yields well-formed keys *)
@@ -232,6 +232,36 @@ Proof.
   exact (proof_complete H Hlen d m n kb P1 C1 Hb Hne Hkb).
 Qed.
 Print Assumptions C07_proof_complete.
+
+(** the canonical constructor agrees with the operational trie: whatever history of updates and
+    deletes produced the trie [n], it equals (up to hash caches) [build] applied to any
+    duplicate-free list of its entries — so [build] is an order-free definition of "the trie of
+    this content", and the root is [build_root] of the content *)
+Theorem C07_build_canonical :
+  forall d ops n, Forall (fun o => is_bytes (mop_key o)) ops -> run d Empty ops = Ok n ->
+  forall m : list (key * bytes),
+    NoDup (map fst m) ->
+    (forall k w, has n k w <-> In (k, w) m) ->
+    erase n = erase (build (build_fuel m) m).
+Proof.
+  intros d ops n Hk Hr m Hn Hh.
+  destruct (run_represents d ops _ _ represents_empty Hk) as (n1 & E1 & P1).
+  rewrite Hr in E1. inversion E1; subst n1.
+  apply build_canonical; auto. apply P1.
+Qed.
+Print Assumptions C07_build_canonical.
+
+(** stack trie, PARTIAL: the hashing half only.  Whenever the stack trie's state [s] is a view
+    ([strel]) of a trie node [n] — leaves / extensions / branches on the rightmost path,
+    finished subtrees replaced by their collapsed value (encoding if < 32 bytes, else hash) —
+    StackTrie.Hash returns the root hash of [n].  Missing for the full statement
+    [C07_stack_equals_statement] (Open.v): StackTrie.insert maintains [strel] with respect to
+    Trie.insert for strictly increasing, prefix-free keys. *)
+Theorem C07_stack_hash_partial :
+  forall (H : bytes -> bytes), (forall x, length (H x) = 32) ->
+  forall s n, strel H s n -> is_node' n -> st_root H s = H (cenc H n).
+Proof. exact st_root_rel. Qed.
+Print Assumptions C07_stack_hash_partial.
 
 (** the hypotheses are satisfiable and the functions compute: three keys with a shared prefix
     inserted in two different orders (one history also inserts and deletes a fourth key, the
